@@ -9,6 +9,7 @@ import RV.Base.Proto
     bgp s p o s p o …             -> ok     the current basic graph pattern
     init v t                      -> ok     initBindings {?v: t}
     noinit                        -> ok     no initBindings
+    abs b1,b2,… r1,r2,…           -> iri …  `Prologue.absolutize` of the reference r under BASE b (code points, `-` = empty)
     store mem|simple|aud|agg      -> ok     which store model answers `triples`
     eval given                    -> rows … evalBGP in the written order
     eval perm i,j,…               -> rows … evalBGP in that order
@@ -24,7 +25,7 @@ import RV.Base.Proto
     quad s p o g                  -> ok     a quad of the data set of the top-down evaluator (g = 0: default graph)
     p <prefix tokens>             -> ok     an algebra tree:  bgp k s p o … | join P P | union P P | minus P P
                                             | ljoin (none | e E) P P | filter E P | extend ?v T P | graph T P
-                                            | values k (n tokens per row, `-` = UNDEF)…
+                                            | values k (n tokens per row, `-` = UNDEF)… | sub k v… P
     evaltd k v…                   -> rows … `evalSelectTD`: reorderTriples on every BGP, then the top-down evaluator
                                             with the current initBindings, projected on the k variables
   Rows: one `t0,t1,…` per solution (`-` = unbound), sorted, separated by blanks.
@@ -229,6 +230,11 @@ def parseP (n : Nat) : Nat → List String → Option (P n × List String)
       let k ← k.toNat?
       let (rows, r) ← takeRows n k rest
       pure (.values rows, r)
+    | "sub" :: k :: rest => do
+      let k ← k.toNat?
+      let (vs, r1) ← takeVars n k rest
+      let (q, r2) ← parseP n fuel r1
+      pure (.sub vs q, r2)
     | _ => none
 
 /-- the data set of the top-down evaluator: the default graph (g = 0) and one named graph per other g, in the order
@@ -289,6 +295,12 @@ def step (s : St) : List String → St × String
   | ["init", v, t] =>
     match var? s.n v, t.toNat? with
     | some v, some t => ({ s with init := s.init.set v t }, "ok")
+    | _, _ => (s, "bad-op")
+  | ["abs", b, r] =>
+    match nats? b, nats? r with
+    | some b, some r =>
+      let out := Iri.absolutize b r
+      (s, "iri " ++ (if out.isEmpty then "-" else ",".intercalate (out.map toString)))
     | _, _ => (s, "bad-op")
   | ["noinit"] => ({ s with init := Row.empty }, "ok")
   | ["store", w] =>
